@@ -14,7 +14,7 @@
    answer:   <top> <bot> <err> <hex of the bytes written>     (the emulator's region afterwards)
    request:  geom <rows> <w_cnt> <id> -> <beg> <text rows>        (DrawSplitDefs.geom: what vi_switch(id) hands to term_window)
    request:  prompt <td> <hex keys | -> -> <td afterwards> <answered 0|1>     (DrawDirDefs.led_prompt on the keys typed at the prompt)
-   request:  row <td> <xleft> <xcols> <hi 0|1> <match -1|0|1> <pos,wid,glyph;...| -> <cursor pos>
+   request:  row <td> <xleft> <xcols> <hi 0|1> <match -1|0|1> <pos,wid,glyph;...| -> <cursor pos> [<cursor offset | -1>]
              (DrawDirDefs: dir_context under td of a line whose first byte has its high bit set (hi) and whose first matching
              direction-context pattern says <match> (0 = none); render_row = the cells led_render fills; vi_pos of <cursor pos>)
    answer:   <dir> <glyph or -1 per cell, comma separated>|<terminal column of the cursor> *)
@@ -87,7 +87,9 @@ let () =
          let keys = if hex = "-" then [] else bytes_of_hex hex in
          let (s, r) = led_prompt [] [] { e_td = z_of_int (int_of_string td); e_keys = keys } in
          pr "%d %d\n" (int_of_z s.e_td) (match r with Some _ -> 1 | None -> 0)
-       | ["row"; td; left; cols; hi; m; chars; cur] ->
+       | "row" :: td :: left :: cols :: hi :: m :: chars :: cur :: rest ->
+         (* optional 9th word: the cursor OFFSET -- the cursor position is then DrawCurDefs.cursor_pos (ren_cursor of the position of
+            that character, the tail of vi() since 216c15e) over the positions of the characters; the newline at position n *)
          let z s = z_of_int (int_of_string s) in
          let cs = if chars = "-" then [] else
              List.map (fun t -> match ints t with
@@ -99,7 +101,10 @@ let () =
          let d = line_dir (z td) l in
          pr "%d %s|%d\n" (int_of_z d)
            (String.concat "," (List.map (fun c -> match c with Some g -> string_of_int g | None -> "-1") cells))
-           (int_of_z (vi_pos d (z cur) (z left) (z cols)))
+           (int_of_z (vi_pos d (match rest with
+                                | [xoff] when int_of_string xoff >= 0 ->
+                                  cursor_pos (List.map (fun c -> fst (fst c)) cs) (z_of_int (List.length cs)) (nat_of_int (int_of_string xoff))
+                                | _ -> z cur) (z left) (z cols)))
        | ["wid"; c] -> pr "%d\n" (int_of_nat (cp_wid (n_of_int (int_of_string c))))
        | _ -> pr "error bad request\n");
       flush stdout)
